@@ -3,7 +3,7 @@
 From Coq Require Import List NArith ZArith Bool Arith Lia.
 From SK Require Import lib.Tok lib.LGraph lib.Mono.
 From SK Require model.C06_Model model.C11_Model.
-From SK Require Import model.C03_Model model.C05_Model proof.C05_Proof proof.C05_Glue proof.C05_Pipe proof.C05_Prep proof.C05_Comp proof.C05_Main proof.C05_Order proof.C05_Sub proof.C05_Set proof.C05_Result proof.C05_AllStrat proof.C05_PrepOrder proof.C05_Final proof.C05_Default proof.C05_Rewrite proof.C05_Capstone proof.C05_Cap proof.C05_AnyCap.
+From SK Require Import model.C03_Model model.C05_Model proof.C05_Proof proof.C05_Glue proof.C05_Pipe proof.C05_Prep proof.C05_Comp proof.C05_Main proof.C05_Order proof.C05_Sub proof.C05_Set proof.C05_Result proof.C05_AllStrat proof.C05_PrepOrder proof.C05_Final proof.C05_Default proof.C05_Rewrite proof.C05_Capstone proof.C05_Cap proof.C05_AnyCap proof.C05_Prefilter.
 From SK Require Import lib.C06_Spec proof.C06_Comp proof.C06_Main.
 Import ListNotations.
 
@@ -370,4 +370,15 @@ Example any_cap_nonvacuous :
   length (@glued_of (thr_of (Some 0%N)) 0%N hx_host_r2 (relabel_prep sz_sg hx_p)) = 0%nat /\
   length (@glued_of (thr_of (Some 1%N)) 0%N hx_host hx_p) = 1%nat /\
   length (@glued_of (thr_of (Some 1%N)) 0%N hx_host_r2 (relabel_prep sz_sg hx_p)) = 1%nat.
+Proof. repeat split; vm_compute; reflexivity. Qed.
+
+(** the pre-filter option on the same two writings: premises of the any-options theorem evaluated; the guard does not fire
+    under the default cap (one glued graph on both sides) and fires under cap 0 (none on both sides) *)
+Example any_options_nonvacuous :
+  C06_Model.wfb (host_c06 (relabel sz_pi hx_host)) = true /\ C06_Model.wfb (host_c06 hx_host_r2) = true /\
+  C06_Model.wfb (pat_c06 (p_pat (relabel_prep sz_sg hx_p))) = true /\
+  length (@glued_of_pf (thr_of None) true 0%N hx_host hx_p) = 1%nat /\
+  length (@glued_of_pf (thr_of None) true 0%N hx_host_r2 (relabel_prep sz_sg hx_p)) = 1%nat /\
+  @prefilter_fires (thr_of (Some 0%N)) hx_host hx_p = true /\
+  @glued_of_pf (thr_of (Some 0%N)) true 0%N hx_host_r2 (relabel_prep sz_sg hx_p) = [].
 Proof. repeat split; vm_compute; reflexivity. Qed.
